@@ -258,6 +258,10 @@ func (h *hist) Burst(spec burstSpec) {
 		}
 	} else {
 		r.Count("bursts_judged", 1)
+		if spec.N >= 8 {
+			sampleOnce(r, "burst", map[string]any{"part": "probe election (race child)", "what": "N requests parked on one expired failure generation, then the probe was released",
+				"cfg": h.c.Cfg, "burst": spec, "upstream_calls": len(calls), "in_stub_at_barrier": atBarrier, "history": h.c.Index, "op": idx})
+		}
 		r.Max("burst_parked_followers_max", int64(spec.N-atBarrier))
 		r.Distinct(fmt.Sprintf("burst|%s|%s|%s|%v|n%d", spec.Scenario, spec.Leader.Kind+spec.Leader.Local, spec.Second.Kind+spec.Second.Local, spec.CancelLead, bucket(spec.N)))
 		if atBarrier > 1 {
@@ -285,6 +289,7 @@ func (h *hist) Burst(spec burstSpec) {
 				}
 			}
 			if bypass {
+				r.Count("burst_stragglers_observed", 1)
 				r.Violation("burst/straggler-upstream-during-active-failure",
 					fmt.Sprintf("%d upstream calls for a burst of %d parked followers of one expired failure generation (%s, leader %s%s, second %s%s): call(s) beyond the second entered resolution while an ACTIVE cached failure already covered their question",
 						len(calls), spec.N, spec.Scenario, spec.Leader.Kind, spec.Leader.Local, spec.Second.Kind, spec.Second.Local), h.replay(idx))
